@@ -10,6 +10,7 @@ CONSTANTS
   MaxFaults = 1
   StoreMetaFirst = TRUE
   KillWaits = TRUE
+  GcProtectsMergeSources = TRUE
   ReplaceStaleDel = TRUE
 INVARIANT NeverDeletesNeeded
 CHECK_DEADLOCK FALSE
